@@ -1,6 +1,6 @@
 (* SchedP.v - proofs about the scheduler model Sched.v (slice conc, property C16). *)
 From LY Require Import Base Sched.
-From Coq Require Import ZifyBool ZifyNat ZifyN.
+From Coq Require Import ZifyBool ZifyNat ZifyN Permutation.
 Local Open Scope N_scope.
 
 (* ---------------------------------------------------------------------------------------------------------------
@@ -975,4 +975,143 @@ Proof.
   split.
   - apply (replay_rets_unique _ _ d0); [rewrite expect_map_fst; reflexivity|exact Hok|exact H1].
   - intro x. rewrite (Hfin Hl). rewrite replay_fst_expect. apply H2.
+Qed.
+
+(* ---------------------------------------------------------------------------------------------------------------
+   error records: with at most five threads the arena is never enlarged, so no record pointer ever dangles
+   --------------------------------------------------------------------------------------------------------------- *)
+Definition small_inv (n : nat) (st : state) : Prop :=
+  s_egen st = 0 /\ s_esize st = 8 /\ length (s_thr st) = n /\
+  NoDup (map fst (s_erecs st)) /\ (forall r, In r (s_erecs st) -> (fst r < n)%nat).
+
+Lemma find_rec_none recs t : forall k, find_rec recs t k = None -> ~ In t (map fst recs).
+Proof.
+  induction recs as [|r recs IH]; intros k H; cbn in *; [tauto|].
+  destruct (Nat.eqb (fst r) t) eqn:E; [discriminate|]. apply Nat.eqb_neq in E. intros [Hin|Hin]; [congruence|].
+  apply (IH _ H Hin).
+Qed.
+
+Lemma nodup_bound (l : list nat) n : NoDup l -> (forall x, In x l -> (x < n)%nat) -> (length l <= n)%nat.
+Proof.
+  intros Hnd Hlt. rewrite <- (seq_length n 0). apply NoDup_incl_length; [exact Hnd|].
+  intros x Hx. apply in_seq. specialize (Hlt x Hx). lia.
+Qed.
+
+Lemma err_resize_small md used : used <= 5 -> exists md', err_resize 0 8 md used = (0, 8, md').
+Proof.
+  intro H. unfold err_resize.
+  assert (Hr : used * 100 / 8 <= 62).
+  { replace 62 with (500 / 8) by reflexivity. apply N.div_le_mono; lia. }
+  assert (H75 : (75 <=? used * 100 / 8) = false) by (apply N.leb_gt; lia).
+  rewrite H75. rewrite andb_false_r. eexists; reflexivity.
+Qed.
+
+Lemma map_fst_lset (recs : list erec) i r items :
+  nth_error recs i = Some r -> map fst (lset recs i (fst r, items)) = map fst recs.
+Proof.
+  revert i; induction recs as [|x recs IH]; intros [|i] H; cbn in *; try discriminate.
+  - inversion H; subst. reflexivity.
+  - f_equal. apply IH; exact H.
+Qed.
+
+Lemma in_lset {A} (l : list A) i a x : In x (lset l i a) -> x = a \/ In x l.
+Proof.
+  revert i; induction l as [|y l IH]; intros [|i] H; cbn in *; try tauto.
+  - destruct H as [H|H]; auto.
+  - destruct H as [H|H]; auto. destruct (IH _ H); auto.
+Qed.
+
+Definition nodangle (_ : tid) (e : event) : Prop := is_dangling e = false.
+
+Ltac sstep Hs :=
+  destruct Hs as [Hs1 [Hs2 [Hs3 [Hs4 Hs5]]]];
+  repeat split; cbn [s_egen s_esize s_thr s_erecs set_thr set_dict set_err set_canon set_hash];
+  try (match goal with |- context [set_holder _ ?m _] => destruct m end;
+       cbn [s_egen s_esize s_thr s_erecs set_holder]);
+  rewrite ?lset_length; try assumption.
+
+Ltac nevs :=
+  let ev := fresh "ev" in let Hev := fresh "Hev" in
+  intros ev Hev; cbn [In snd] in Hev;
+  repeat (destruct Hev as [<-|Hev]; [try reflexivity|]); try contradiction.
+
+Lemma exec_small n st t :
+  (n <= 5)%nat -> err_inv st /\ small_inv n st ->
+  (err_inv (fst (exec st t)) /\ small_inv n (fst (exec st t))) /\ forall e, In e (snd (exec st t)) -> nodangle t e.
+Proof.
+  intros Hn [He Hs]. split; [split; [apply exec_err; exact He|]|].
+  - (* small_inv *)
+    unfold exec. destruct (nth_error (s_thr st) t) as [ts|] eqn:Ht; [|exact Hs].
+    destruct (t_rem ts) as [|stp rest] eqn:Hrem; [exact Hs|].
+    destruct stp; cbn [exec_step];
+      try (destruct (holder st m) eqn:Hh); try (destruct (holds st t m));
+      try (destruct (negb (s_dict st s =? 0)));
+      try (match goal with |- context [flag (t_reg ts)] => destruct (flag (t_reg ts)) end);
+      try (match goal with |- context [match t_reg ts with _ => _ end] => destruct (t_reg ts) as [|b0|[p0|]|b0] eqn:Hreg end);
+      try (destruct (p_gen p0 =? s_egen st));
+      try (destruct (nth_error (s_erecs st) (p_idx p0)) as [r0|] eqn:Hr0);
+      cbn [fst snd]; try exact Hs; try (sstep Hs; fail).
+    + (* ErrInsert *)
+      destruct (find_rec (s_erecs st) t 0) as [i|] eqn:Hf; [cbn [fst]; sstep Hs|].
+      destruct Hs as [Hs1 [Hs2 [Hs3 [Hs4 Hs5]]]].
+      assert (Htn : (t < n)%nat). { rewrite <- Hs3. apply nth_error_Some. congruence. }
+      assert (Hnd : NoDup (map fst (s_erecs st ++ [(t, [])]))).
+      { rewrite map_app. cbn [map fst].
+        apply Permutation.Permutation_NoDup with (l := t :: map fst (s_erecs st)).
+        - apply Permutation.Permutation_cons_append.
+        - constructor; [apply (find_rec_none _ _ _ Hf)|exact Hs4]. }
+      assert (Hall : forall r, In r (s_erecs st ++ [(t, [])]) -> (fst r < n)%nat).
+      { intros r Hin. apply in_app_or in Hin. destruct Hin as [Hin|[<-|[]]]; [apply Hs5; exact Hin|exact Htn]. }
+      assert (Hlen : N.of_nat (length (s_erecs st ++ [(t, [])])) <= 5).
+      { assert (Hb := nodup_bound _ n Hnd). rewrite map_length in Hb.
+        assert (Hb' : (length (s_erecs st ++ [(t, [])]) <= n)%nat).
+        { apply Hb. intros x Hx. apply in_map_iff in Hx. destruct Hx as [r [<- Hr]]. apply Hall; exact Hr. }
+        lia. }
+      rewrite Hs1, Hs2. destruct (err_resize_small (s_emode st) _ Hlen) as [md' ->].
+      cbn [fst]. repeat split; cbn [s_egen s_esize s_thr s_erecs set_thr set_err]; rewrite ?lset_length; auto.
+    + (* ErrWrite *)
+      destruct Hs as [Hs1 [Hs2 [Hs3 [Hs4 Hs5]]]].
+      repeat split; cbn [s_egen s_esize s_thr s_erecs set_thr set_err]; rewrite ?lset_length; auto.
+      * rewrite (map_fst_lset _ _ _ _ Hr0). exact Hs4.
+      * intros r Hin. apply in_lset in Hin. destruct Hin as [->|Hin]; [|apply Hs5; exact Hin].
+        cbn [fst]. apply Hs5. eapply nth_error_In; exact Hr0.
+    + (* ErrClear *)
+      destruct Hs as [Hs1 [Hs2 [Hs3 [Hs4 Hs5]]]].
+      repeat split; cbn [s_egen s_esize s_thr s_erecs set_thr set_err]; rewrite ?lset_length; auto.
+      * rewrite (map_fst_lset _ _ _ _ Hr0). exact Hs4.
+      * intros r Hin. apply in_lset in Hin. destruct Hin as [->|Hin]; [|apply Hs5; exact Hin].
+        cbn [fst]. apply Hs5. eapply nth_error_In; exact Hr0.
+  - (* no dangling dereference *)
+    unfold exec. destruct (nth_error (s_thr st) t) as [ts|] eqn:Ht; [|intros e []].
+    destruct (t_rem ts) as [|stp rest] eqn:Hrem; [intros e []|].
+    assert (Hvalid : forall p, t_reg ts = RPtr (Some p) ->
+              (p_gen p =? s_egen st) = true /\ exists r, nth_error (s_erecs st) (p_idx p) = Some r).
+    { intros p Hp. destruct He as [_ Hb]. destruct (Hb t ts p Ht Hp) as [Hle Hex].
+      destruct Hs as [Hs1 _]. assert (Hg : p_gen p = s_egen st) by lia.
+      split; [apply N.eqb_eq; exact Hg|]. destruct (Hex Hg) as [r [Hr _]]. exists r; exact Hr. }
+    destruct stp; cbn [exec_step];
+      try (destruct (holder st m) eqn:Hh); try (destruct (holds st t m));
+      try (destruct (negb (s_dict st s =? 0)));
+      try (match goal with |- context [flag (t_reg ts)] => destruct (flag (t_reg ts)) end);
+      try (destruct (find_rec (s_erecs st) t 0));
+      try (match goal with |- context [err_resize ?x1 ?x2 ?x3 ?x4] => destruct (err_resize x1 x2 x3 x4) as [[g sz] md] end);
+      try (match goal with |- context [match t_reg ts with _ => _ end] =>
+             destruct (t_reg ts) as [|b0|[p0|]|b0] eqn:Hreg;
+             [| |destruct (Hvalid p0 eq_refl) as [Hg [r0 Hr0]]; rewrite Hg, Hr0| |] end);
+      cbn [fst snd]; nevs.
+Qed.
+
+Theorem err_rec_pointer_stable_small d0 progs sched :
+  (length progs <= 5)%nat ->
+  forall t e, In (t, e) (snd (run sched (init d0 progs))) -> is_dangling e = false.
+Proof.
+  intro Hn.
+  assert (H0 : err_inv (init d0 progs) /\ small_inv (length progs) (init d0 progs)).
+  { split; [apply err_inv_init|]. repeat split; cbn; try reflexivity.
+    - apply map_length.
+    - constructor.
+    - intros r []. }
+  destruct (run_invariant (fun st => err_inv st /\ small_inv (length progs) st) nodangle
+              (fun st u HI => exec_small (length progs) st u Hn HI) sched (init d0 progs) H0) as [_ HG].
+  exact HG.
 Qed.
